@@ -126,13 +126,37 @@ inductive ODec where
   | ents (l : List (Nat × Bool))     -- (path id, equal to the input entry)
   deriving DecidableEq, Repr, Inhabited
 
+/-- Route Distinguisher (RFC 4364 §4.2): type 0 = 2-octet AS : 4-octet number, type 1 = IPv4 address : 2-octet number,
+    type 2 = 4-octet AS : 2-octet number -/
+structure Rd where
+  ty : Nat
+  admin : Nat
+  assigned : Nat
+  deriving DecidableEq, Repr, Inhabited
+
+/-- Structured NLRI of the label-carrying families (VPN-IPv4/IPv6: RFC 4364 / 4659, labeled unicast: RFC 8277),
+    as the harness reads it off the Rust value through public fields -/
+inductive NStruct where
+  | vpn (labels : List Nat) (rd : Rd) (addr : Bytes) (mask : Nat)
+  | lab (labels : List Nat) (addr : Bytes) (mask : Nat)
+  deriving DecidableEq, Repr, Inhabited
+
+/-- what is known about an NLRI outside the IPv4/IPv6 model from its INPUT: `wire` = it has a wire form by its
+    family's RFC; `st` = its structure, for the families whose NLRI codec is modelled (then the model encodes /
+    decodes it itself and the probe is only cross-checked); `wd` = it travels in MP_UNREACH_NLRI -/
+structure OInfo where
+  wire : Bool
+  wd : Bool
+  st : Option NStruct
+  deriving DecidableEq, Repr, Inhabited
+
 inductive Nlri where
   /-- IPv4 (`v6 = false`, 4 address bytes) or IPv6 (`v6 = true`, 16 address bytes) prefix -/
   | ip (v6 : Bool) (addr : Bytes) (mask : Nat)
   /-- NLRI of a family outside the model: its wire bytes as measured on the real encoder (or panic / `Err`),
       the decode probe, and `wire` = the value has a wire form by its family's RFC (decided from the INPUT, not
       by the encoder: the only reason for "none" is a label stack whose bit count exceeds the length octet) -/
-  | opq (enc : Out Bytes) (dec : ODec) (wire : Bool)
+  | opq (enc : Out Bytes) (dec : ODec) (info : OInfo)
   deriving DecidableEq, Repr, Inhabited
 
 structure Entry where
@@ -451,12 +475,48 @@ def utf8Valid (b : Bytes) : Bool :=
 
 def ceil8 (n : Nat) : Nat := (n + 7) / 8
 
-/-- `Nlri::encode` / `Nlri::encode_withdrawn` (an opaque family's probe is taken in the direction it is used). -/
+/-- `MplsLabel::encode`: 20-bit label, 3-bit TC (0), bottom-of-stack bit -/
+def labelBytes (l : Nat) (bos : Bool) : Bytes :=
+  let raw := l * 16 + (if bos then 1 else 0)
+  [raw / 65536 % 256, raw / 256 % 256, raw % 256]
+
+/-- `MplsLabelStack::encode`: the BoS bit on the last label -/
+def stackBytes : List Nat → Bytes
+  | [] => []
+  | [l] => labelBytes l true
+  | l :: rest => labelBytes l false ++ stackBytes rest
+
+/-- `RouteDistinguisher::encode` -/
+def Rd.bytes (r : Rd) : Bytes :=
+  if r.ty = 0 then be16 0 ++ be16 r.admin ++ be32 r.assigned
+  else be16 r.ty ++ be32 r.admin ++ be16 r.assigned
+
+/-- `Nlri::encode` (`withdrawn = false`) / `Nlri::encode_withdrawn` for the label-carrying families:
+    `VpnV4Nlri/VpnV6Nlri::encode`, `LabeledV4Nlri/LabeledV6Nlri::encode` behind the `total_bits() > 255` guard of
+    `Nlri::encode`; a withdrawn labeled prefix carries the compatibility field 0x800000 instead of its labels. -/
+def NStruct.encode (withdrawn : Bool) : NStruct → Out Bytes
+  | .vpn ls rd addr mask =>
+      if 24 * ls.length + 64 + mask > 255 then .err
+      else if ceil8 mask ≤ addr.length then
+        .ok ([24 * ls.length + 64 + mask] ++ stackBytes ls ++ rd.bytes ++ addr.take (ceil8 mask))
+      else .panic
+  | .lab ls addr mask =>
+      if withdrawn then
+        if ceil8 mask ≤ addr.length then .ok ([(24 + mask) % 256, 128, 0, 0] ++ addr.take (ceil8 mask)) else .panic
+      else if 24 * ls.length + mask > 255 then .err
+      else if ceil8 mask ≤ addr.length then .ok ([24 * ls.length + mask] ++ stackBytes ls ++ addr.take (ceil8 mask))
+      else .panic
+
+/-- `Nlri::encode` / `Nlri::encode_withdrawn`.  For a family outside the IPv4/IPv6 model: the modelled NLRI codec when
+    the structure is known, else the probe (taken in the direction it is used). -/
 def Nlri.encode : Nlri → Out Bytes
   | .ip _ addr mask =>
       -- `self.addr.octets()[i]` for `i < mask.div_ceil(8)` indexes out of range when the mask is too long
       if ceil8 mask ≤ addr.length then .ok (mask :: addr.take (ceil8 mask)) else .panic
-  | .opq enc _ _ => enc
+  | .opq enc _ info =>
+      match info.st with
+      | some s => s.encode info.wd
+      | none => enc
 
 def Nh.bytes : Nh → Bytes
   | .v4 a => a
